@@ -224,9 +224,9 @@ func C02(tier string) int {
 		},
 		Rule:        "(b) stateless depth-first exploration of every schedule with at most the stated number of preemptions of reader threads (begin, three full dumps separated by yields, close) against a writer thread doing page-recycling (and, in d3, map-outgrowing) updates; scheduling points at every lock operation and every I/O call of the real code; oracle: each dump equals the version named by the reader's id, which must be a version committed (meta written) at that instant, and never changes. (a) explicit-state BFS over event orders (c02-life, reported under hx_*): up to 3 readers of different ages, writers with page-freeing bodies, rollbacks, reopen; after every writer event every open reader is re-dumped forwards and backwards and compared with its version, and the write monitor checks every write",
 		Assumptions: []string{"reader-internal preemption is not explored: snapshot stability = private meta copy + no write into the snapshot's pages (write monitor, C06) + pinned mapping (DESIGN.md 4/C02)"},
-		Quick:       60 * time.Second, Thorough: 20 * time.Minute,
+		Quick:       60 * time.Second, Thorough: 10 * time.Minute,
 		Extra: func(tier string, cov map[string]interface{}) []string {
-			return subHX("C02", []string{"c02-life", "c02-fault"}, tier, cov, 70*time.Second, 20*time.Minute)
+			return subHX("C02", []string{"c02-life", "c02-fault"}, tier, cov, 70*time.Second, 8*time.Minute)
 		},
 	}, tier)
 	return rc
